@@ -359,8 +359,73 @@ def r16f(ck, prog):
     ck.floor("R16f", n, 2, "writers of num_profiles")
 
 
+def r16g(ck, prog, functions=None):
+    """an owning local is not overwritten while it still holds its object: for a local pointer that the function releases
+    (free / MFREE / free_*), an assignment of a new object at a point where the pointer is known to be live (the assignment
+    is guarded by a test that dereferences it or found it non-NULL) is preceded, in the same block, by a statement that
+    saves or consumes the old value (tmp = p; x->f = p; free(p); f(p))"""
+    def refs(n, did):
+        return any(r.d.get("did") == did for r in n.find("DeclRefExpr"))
+    n = 0
+    for F in (functions if functions is not None else prog.lib_functions()):
+        if F.body is None:
+            continue
+        released = {}
+        for c in F.body.find("CallExpr"):
+            if "free" in (c.callee or "").lower():
+                for a in c.args:
+                    a0 = a.strip(casts=True)
+                    if a0.k == "DeclRefExpr" and a0.d.get("dk") == "Var" and not a0.d.get("g") and a0.ty.endswith("*"):
+                        released[a0.d["did"]] = a0.d["name"]
+        for did, name in released.items():
+            for A in F.body.find("BinaryOperator"):
+                if A.d["op"] != "=":
+                    continue
+                l = A.kids[0].strip()
+                if not (l.k == "DeclRefExpr" and l.d["did"] == did):
+                    continue
+                r = A.kids[1].strip(casts=True)
+                if r.cv == 0 or "NULL" in "".join(r.mac) or refs(A.kids[1], did):
+                    continue
+                live = False
+                for cond, pol in guards(A):
+                    c0 = cond.strip(casts=True)
+                    if any(m.d.get("arrow") and refs(m.kids[0], did) for m in cond.find("MemberExpr")):
+                        live = True
+                    if c0.k == "DeclRefExpr" and c0.d.get("did") == did and pol:
+                        live = True
+                    if c0.k == "UnaryOperator" and c0.d["op"] == "!" and c0.kids[0].strip(casts=True).k == "DeclRefExpr" \
+                            and c0.kids[0].strip(casts=True).d.get("did") == did and not pol:
+                        live = True
+                if not live:
+                    continue
+                n += 1
+                blk = A.parent
+                while blk is not None and blk.k != "CompoundStmt":
+                    blk = blk.parent
+                saved = False
+                for st in (blk.kids if blk is not None else []):
+                    if st is A or A.within(st):
+                        break
+                    for x in st.walk():
+                        if x.k == "BinaryOperator" and x.d["op"] == "=" and refs(x.kids[1], did) and not refs(x.kids[0], did):
+                            saved = True
+                        if x.k == "CallExpr" and any(refs(a, did) for a in x.args):
+                            saved = True
+                where = site(prog, A, name)
+                ck.inst("R16g", where, "%s: %s = %s while %s is live; old value %s" % (F.name, name, r.text()[:30], name,
+                                                                                      "saved / consumed first" if saved else "NOT saved"), prog.config)
+                if not saved:
+                    ck.violation("R16g", "R16g/%s/%s" % (F.name, name), where,
+                                 "%s overwrites %s with %s at a point where %s still holds an object it owns (the function releases %s "
+                                 "later) without saving or releasing the old one: it stays allocated after the call" % (
+                                     F.name, name, r.text()[:30], name, name), prog.config)
+    return n
+
+
 def run(ck, progs):
     describe(ck)
+    ck.rule("R16g", "an owning local pointer is not overwritten while it is known to hold a live object unless the old value was saved or released just before")
     ck.rule("R16f", "msa.num_profiles is changed only together with a re-allocation of the sip / nsip / plen arrays it counts")
     for cfg, prog in progs.items():
         n = ck.attempt(r16a, ck, prog)
@@ -374,6 +439,8 @@ def run(ck, progs):
                 v["rule"] = "R16c"
                 v["key"] = v["key"].replace("R05c", "R16c")
         ck.attempt(r16f, ck, prog)
+        from . import c09
+        ck.borrow(c09.r09i, prog, "R16c", ("R09i",))     # a setter that leaves a penalty unset leaves it to the previous owner of the heap block
         b2 = len(ck.instances)
         ck.attempt(c05.r05s, ck, prog)
         for i in ck.instances[b2:]:
@@ -384,6 +451,8 @@ def run(ck, progs):
                 v["key"] = v["key"].replace("R05s", "R16c")
         n = ck.attempt(r16d, ck, prog)
         ck.floor("R16d", n, 12, "acquisitions in API-owned functions")
+        n = ck.attempt(r16g, ck, prog)
+        ck.floor("R16g", n or 0, 1, "overwrites of live owning locals")
         cg = CallGraph(prog)
         ck.attempt(c03.r03d, ck, prog, cg, roots=tuple(sorted(c05.api_functions(prog))), rule="R16e")
     from ..controls import control_program
@@ -393,7 +462,10 @@ def run(ck, progs):
     sub.known = {}
     r16a(sub, cp, functions=cp.all_functions)
     r16d(sub, cp, functions=[F.name for F in cp.all_functions], all_exits=True)
+    r16g(sub, cp, functions=cp.all_functions)
     keys = {v["key"] for v in sub.violations}
+    ck.control("R16g", "bad_r16g_best_overwritten", "R16g/bad_r16g_best_overwritten/best" in keys, True)
+    ck.control("R16g", "ok_r16g_best_swapped", any("ok_r16g" in k for k in keys), False)
     for want in ("R16a/ctl_counter/calls", "R16a/ctl_cache/static-last", "R16d/bad_r16d_leak_on_error/buf"):
         ck.control(want.split("/")[0], want, want in keys, True)
     for quiet in ("ok_r16d_released", "ctl_const_table"):
